@@ -1280,7 +1280,7 @@ func genBytes(c *GenCtx) {
 		`{"#":"jnum","x":"` + hex.EncodeToString([]byte("1e400")) + `"}`, `{"#":"jnum","x":"` + hex.EncodeToString([]byte("NaN")) + `"}`, `{"#":"jnum","x":"` + hex.EncodeToString([]byte("1_0")) + `"}`,
 		`{"#":"jnum","x":"` + hex.EncodeToString([]byte("+5")) + `"}`, `{"#":"jnum","x":"` + hex.EncodeToString([]byte(".5")) + `"}`, `{"#":"bytes","x":"c328"}`, `{"#":"bytes","x":"ff"}`, `{"#":"bytes","x":"e282"}`,
 		`{"#":"f32","v":"1p1"}`, `{"#":"f32","v":"-3p0"}`, `{"#":"f32","v":"1p70"}`, `{"#":"f32","v":"nan"}`, `{"#":"f64","v":"1p1"}`, `{"#":"f64","v":"5p-1"}`, `{"#":"f64","v":"1p63"}`, `{"#":"f64","v":"0p0"}`,
-		`{"#":"foreign","t":1}`, `{"#":"foreign","t":2}`, `{"#":"nilslice"}`, `{"#":"i8","v":"-128"}`, `{"#":"u64","v":"18446744073709551615"}`, `{"#":"uint","v":"9223372036854775808"}`,
+		`{"#":"foreign","t":1}`, `{"#":"foreign","t":2}`, `{"#":"foreign","t":7}`, `[{"#":"foreign","t":8}]`, `{"#":"nilslice"}`, `{"#":"i8","v":"-128"}`, `{"#":"u64","v":"18446744073709551615"}`, `{"#":"uint","v":"9223372036854775808"}`,
 		`{"#":"i64","v":"-9223372036854775808"}`, `{"#":"cap","v":[1,2]}`, `[{"#":"f64","v":"nan"},1]`, `{"k":{"#":"foreign","t":3}}`, `"plain"`, `3`, `null`, `[]`, `{}`}
 	zexprs := []string{"v", "abs(v)", "ceil(v)", "floor(v)", "-v", "+v", "v + v", "v - `1`", "v * w", "v / w", "v // w", "v % w", "v == v", "v == w", "v != w", "v < w", "v >= w", "!v", "v && w", "v || w", "type(v)",
 		"to_string(v)", "to_number(v)", "to_array(v)", "length(v)", "reverse(v)", "sort([v, w])", "sort_by([v, w], &@)", "max([v, w])", "min_by([v, w], &@)", "sum([v, w])", "avg([v, w])",
